@@ -14,7 +14,7 @@ use vcommon::sync::{is_miri, progress_tick, ticket};
 use vcommon::{Args, Fnv, Report, Rng};
 
 #[metrics]
-#[derive(Default)]
+#[derive(Default, Debug)]
 struct Work {
     a: u64,
     b: u64,
@@ -399,6 +399,7 @@ fn concurrent_creation_history(rng: &mut Rng, rep: &Report) -> Option<u64> {
     let nthreads = 2 + rng.usize_below(2);
     let per: Vec<usize> = (0..nthreads).map(|_| 1 + rng.usize_below(if is_miri() { 2 } else { 40 })).collect();
     let race_force = rng.below(3) == 0;
+    let observe = rng.bool();
     let pre_force = if race_force { Some(owner.force_flush_guard()) } else { None };
     let barrier = Barrier::new(nthreads + race_force as usize);
     let owner_ref = &owner;
@@ -410,7 +411,24 @@ fn concurrent_creation_history(rng: &mut Rng, rep: &Report) -> Option<u64> {
                 let barrier = &barrier;
                 s.spawn(move || {
                     barrier.wait();
-                    (0..*n).map(|_| owner_ref.flush_guard()).collect::<Vec<_>>()
+                    // read-only uses of the owner and of the guards (Debug formatting) go on meanwhile
+                    let mut sink_len = 0usize;
+                    let v = (0..*n)
+                        .map(|i| {
+                            let g = owner_ref.flush_guard();
+                            if observe && i % 2 == 0 {
+                                sink_len += format!("{g:?}{owner_ref:?}").len();
+                            }
+                            g
+                        })
+                        .collect::<Vec<_>>();
+                    if observe {
+                        for g in &v {
+                            sink_len += format!("{g:?}").len();
+                        }
+                    }
+                    std::hint::black_box(sink_len);
+                    v
                 })
             })
             .collect();
@@ -424,7 +442,7 @@ fn concurrent_creation_history(rng: &mut Rng, rep: &Report) -> Option<u64> {
     });
     progress_tick();
     let total_guards = guards.len();
-    let witness = |what: &str, extra: vcommon::serde_json::Value| json!({"what": what, "creators": per, "force_guard_dropped_concurrently": race_force, "guards_created": total_guards, "extra": extra});
+    let witness = |what: &str, extra: vcommon::serde_json::Value| json!({"what": what, "creators": per, "force_guard_dropped_concurrently": race_force, "debug_formatting_concurrently": observe, "guards_created": total_guards, "extra": extra});
     if sink.count() != 0 {
         rep.violation("appended-while-owner-alive", witness("appended before the owner was dropped", json!({})));
         return None;
